@@ -68,7 +68,78 @@ fn digest(l: &[u64], z: bool, n: bool) -> u64 {
     h
 }
 
+/// C19: the words fed to the generator are chosen so that `gen_range` returns exactly the
+/// value `x` of its range (rand 0.8 maps a 32-bit word v to floor(v * range / 2^32));
+/// the low bits of each word are filled from a hash so that the stream is not degenerate.
+/// Result: 1 if the sample is a real posit in [0,1), 0 otherwise, 2 if it panicked.
+pub fn steer_word(x: u64, range_log2: u32, salt: u64) -> u32 {
+    let sh = 32 - range_log2;
+    let low = if sh == 0 { 0 } else { (crate::rng::mix64(x ^ salt) as u32) & ((1u32 << sh) - 1) };
+    // keep the low part small enough that rand's rejection zone accepts it
+    ((x as u32) << sh) | (low >> 1)
+}
+
+fn sample_ops(ops: &mut Vec<Op>) {
+    use crate::mon::rngmon::in_unit_interval;
+    use crate::steer::Steered;
+    use rand::Rng as _;
+    use steer_word as word;
+    #[allow(dead_code)]
+    fn word_unused(x: u64, range_log2: u32, salt: u64) -> u32 {
+        let sh = 32 - range_log2;
+        let low = if sh == 0 { 0 } else { (crate::rng::mix64(x ^ salt) as u32) & ((1u32 << sh) - 1) };
+        // keep the low part small enough that rand's rejection zone accepts it
+        ((x as u32) << sh) | (low >> 1)
+    }
+    ops.push(
+        Op::new("P8E0::sample_steered", &["C19"], &[Kind::Small(64)], OutKind::Raw, |x, _, _| {
+            let mut rng = Steered::new(&[word(x, 6, 8)], x);
+            let p: softposit::P8E0 = rng.gen();
+            in_unit_interval(crate::val::P8, p.to_bits() as u64) as u64
+        })
+        .slow(|_, _, _| Some(1))
+        .note("all 64 values of gen_range(0..0x40)"),
+    );
+    ops.push(
+        Op::new("P16E1::sample_steered", &["C19"], &[Kind::Small(1 << 18)], OutKind::Raw, |x, _, _| {
+            let mut rng = Steered::new(&[word(x, 18, 16)], x);
+            let p: softposit::P16E1 = rng.gen();
+            in_unit_interval(crate::val::P16, p.to_bits() as u64) as u64
+        })
+        .slow(|_, _, _| Some(1))
+        .note("all 2^18 values of gen_range(0..0x4_0000)"),
+    );
+    ops.push(
+        Op::new(
+            "P32E2::sample_steered",
+            &["C19"],
+            &[Kind::Small(1 << 27), Kind::Small(4)],
+            OutKind::Raw,
+            |x, y, _| {
+                let mut rng = Steered::new(&[word(x, 27, 32), word(y, 2, 33)], x ^ (y << 40));
+                let p: softposit::P32E2 = rng.gen();
+                in_unit_interval(crate::val::P32, p.to_bits() as u64) as u64
+            },
+        )
+        .slow(|_, _, _| Some(1))
+        .note("all 2^27 x 4 values of the two gen_range calls"),
+    );
+    // the raw sample for a given pair of generator words (used by replays / C16)
+    ops.push(Op::new(
+        "P16E1::sample_from_words",
+        &["C16"],
+        &[Kind::Int { bits: 32, signed: false, f: crate::val::P16 }],
+        OutKind::Pat(crate::val::P16),
+        |x, _, _| {
+            let mut rng = Steered::new(&[x as u32], x);
+            let p: softposit::P16E1 = rng.gen();
+            p.to_bits() as u64
+        },
+    ));
+}
+
 pub fn register(ops: &mut Vec<Op>) {
+    sample_ops(ops);
     quire_ops::<Q8E0>(ops);
     quire_ops::<Q16E1>(ops);
     quire_ops::<Q32E2>(ops);
